@@ -67,10 +67,26 @@ def series(a, dt):
     return out
 
 
+_CAVDP_CALLS = [0]
+
+
 def cavdp(a, dt):
     import eqsig
     from eqsig import im
-    s = eqsig.AccSignal(a, dt)
+    _CAVDP_CALLS[0] += 1
+    if _CAVDP_CALLS[0] % 2 and len(a) > 4:
+        # a USED object: it held a record of another length (time axis read, standardised CAV asked for) before it was given
+        # this record through the public API
+        other = np.concatenate([np.asarray(a, dtype=float)[::-1] * 0.5, np.zeros(int(2.0 / dt) + 3)])
+        s = eqsig.AccSignal(other, dt)
+        _ = s.time[-1]
+        with warnings.catch_warnings():
+            warnings.simplefilter("ignore")
+            im.calc_cav_dp(s)
+            _ = s.velocity
+        s.reset_values(np.array(a))
+    else:
+        s = eqsig.AccSignal(a, dt)
     return im.calc_cav_dp(s), int(1 / dt), int(s.time[-1])
 
 
